@@ -44,10 +44,11 @@ structure Cfg where
   f9b : Bool   -- `Cqueue::drop` finishes the drain before it re-raises an arm's panic
   f16a : Bool  -- `poll` re-pops after `cnt == 0`; `check_panic` always joins
   f16b : Bool  -- `EventSender::wait_kernel`: `send` does not return while `subscribe` still runs
+  f10 : Bool   -- `cqueue::scope` catches a panic of `f` and finishes the cqueue with no unwind in flight (F10.patch)
   deriving DecidableEq, Repr
 
-def fixed : Cfg := ⟨true, true, true, true, true⟩
-def pinned : Cfg := ⟨false, false, false, false, false⟩
+def fixed : Cfg := ⟨true, true, true, true, true, true⟩
+def pinned : Cfg := ⟨false, false, false, false, false, false⟩
 
 inductive Ev | normal (a : Aid) | done (a : Aid)
   deriving DecidableEq, Repr
@@ -334,7 +335,9 @@ def step (cfg : Cfg) (s : St) (who : Actor) (e : Env) : Option St :=
   match who with
   | .arm a =>
     if a < s.n then
-      match astep cfg (s.sh.unwinding && onStack s.ppc a) s.sh a (s.apc a) (s.tpc a) e with
+      -- (with F10.patch `unwinding` means "the payload is kept aside until the cqueue is finished": no unwind is in flight
+      --  while the poller drains, so nothing is suppressed on its stack)
+      match astep cfg (s.sh.unwinding && !cfg.f10 && onStack s.ppc a) s.sh a (s.apc a) (s.tpc a) e with
       | some (sh', pc', tp') => some { s with sh := sh', apc := upd s.apc a pc', tpc := upd s.tpc a tp' }
       | none => none
     else none
